@@ -6,6 +6,9 @@
 
 #include <foonathan/memory/memory_arena.hpp>
 #include <foonathan/memory/static_allocator.hpp>
+#include <foonathan/memory/virtual_memory.hpp>
+
+#include <sys/mman.h>
 
 using namespace verif;
 
@@ -102,10 +105,64 @@ struct logged_src : Inner
     }
 };
 
+
+//=== virtual memory: the library's mmap(PROT_NONE) reservations are served from the deterministic upstream arena ===//
+extern "C" void* __real_mmap(void*, size_t, int, int, int, off_t);
+extern "C" int   __real_munmap(void*, size_t);
+extern "C" int   __real_mprotect(void*, size_t, int);
+extern "C" int   __real_madvise(void*, size_t, int);
+static int g_mprotect_fail = 0;
+extern "C" void* __wrap_mmap(void* addr, size_t len, int prot, int flags, int fd, off_t off)
+{
+    if (prot == PROT_NONE && fd == -1 && g_up())
+    {
+        try
+        {
+            return g_up()->alloc(UP_BLOCK, 1, len, 4096, 7);
+        }
+        catch (...)
+        {
+            return MAP_FAILED;
+        }
+    }
+    return __real_mmap(addr, len, prot, flags, fd, off);
+}
+extern "C" int __wrap_munmap(void* p, size_t len)
+{
+    if (g_up() && g_up()->in_arena(p))
+    {
+        g_up()->dealloc(UP_BLOCK, p, 1, len, 4096, 7);
+        return 0;
+    }
+    return __real_munmap(p, len);
+}
+extern "C" int __wrap_mprotect(void* p, size_t len, int prot)
+{
+    if (g_up() && g_up()->in_arena(p))
+    {
+        if (g_up()->find_containing(g_up()->offset_of(p), u32(len)) < 0)
+            T().fail("M-upstream", "commit-outside-reservation", "virtual memory commit/decommit outside a reserved range");
+        if (prot != PROT_NONE && g_mprotect_fail)
+        {
+            g_mprotect_fail = 0;
+            return -1;
+        }
+        return 0;
+    }
+    return __real_mprotect(p, len, prot);
+}
+extern "C" int __wrap_madvise(void* p, size_t len, int adv)
+{
+    if (g_up() && g_up()->in_arena(p))
+        return 0;
+    return __real_madvise(p, len, adv);
+}
+
 enum src_kind
 {
     SRC_RAW,
-    SRC_STATIC
+    SRC_STATIC,
+    SRC_VIRTUAL
 };
 template <class Src>
 struct src_traits
@@ -116,6 +173,12 @@ template <>
 struct src_traits<fm::static_block_allocator>
 {
     static const int kind = SRC_STATIC;
+};
+
+template <>
+struct src_traits<fm::virtual_block_allocator>
+{
+    static const int kind = SRC_VIRTUAL;
 };
 
 constexpr std::size_t STATIC_MAX = 1024;
@@ -149,6 +212,11 @@ struct arena_policy
         auto& st  = *static_cast<fm::static_allocator_storage<STATIC_MAX>*>(mem);
         // use only the first PP.storage bytes: a storage object of exactly that size
         ::new (where) object(PP.bs, reinterpret_cast<fm::static_allocator_storage<1>&>(st), PP.storage);
+    }
+    template <class Q = Src>
+    static typename std::enable_if<src_traits<Q>::kind == SRC_VIRTUAL>::type construct_impl(void* where)
+    {
+        ::new (where) object(4096, std::size_t(PP.storage / 4096 ? PP.storage / 4096 : 3)); // block = one page, N blocks reserved
     }
     static void construct(void* where)
     {
@@ -496,5 +564,7 @@ int main(int argc, char** argv)
         return run2<src_constant>(a, name, cached);
     if (src == "fixed")
         return run2<src_fixed>(a, name, cached);
+    if (src == "virtual")
+        return run2<fm::virtual_block_allocator>(a, name, cached);
     return run2<static_src>(a, name, cached);
 }
